@@ -63,6 +63,22 @@ def local_helpers(core, f, depth=2):
     return out
 
 
+def origins_nt(crate, fn, operand, _depth=0, **kw):
+    """origins() that looks inside newtypes introduced after the rules were confirmed: an aggregate of a one-field struct that is not in
+    the inventory (`Signal(Arc<AtomicBool>)`, `MiddlewareStack(Arc<Vec<..>>)`) stands for its field"""
+    from rules import inline
+    known = inline.inventory().get('adts:' + crate.name) or set()
+    out = []
+    for o in origins(fn, operand, **kw):
+        rv = o.stmt['rv'] if o.kind == 'agg' else None
+        if rv is not None and rv.get('ak') == 'adt' and len(rv.get('ops') or []) == 1 and known and norm(rv.get('adt') or '') not in known and \
+                norm(rv.get('adt') or '') in crate.adts and _depth < 3:
+            out += origins_nt(crate, fn, rv['ops'][0], _depth + 1, **kw)
+        else:
+            out.append(o)
+    return out
+
+
 def trace_to_root(core, g, operand, root, _depth=0, _helpers=None, _suffix=None):
     """origins of `operand` of body g expressed in the enclosing function `root`: closure captures are followed up into the parent,
     parameters of a crate-local helper are followed into the argument at its call site(s)"""
